@@ -259,6 +259,21 @@ class Interp:
             else:
                 self.block(st.orelse, env, m)
             return
+        if isinstance(st, ast.While):
+            n = 0
+            while self.truth(self.eval(st.test, env, m)):
+                n += 1
+                if n > 64:
+                    raise AnalysisError("circuit evaluation: loop bound (64) exceeded")
+                try:
+                    self.block(st.body, env, m)
+                except _Continue:
+                    continue
+                except _Break:
+                    break
+            else:
+                self.block(st.orelse, env, m)
+            return
         if isinstance(st, ast.Continue):
             raise _Continue()
         if isinstance(st, ast.Break):
@@ -472,6 +487,16 @@ class Interp:
                 return a ** b
             if isinstance(op, ast.MatMult):
                 return a @ b
+            if isinstance(op, ast.BitAnd):
+                return a & b
+            if isinstance(op, ast.BitOr):
+                return a | b
+            if isinstance(op, ast.BitXor):
+                return a ^ b
+            if isinstance(op, ast.LShift):
+                return a << b
+            if isinstance(op, ast.RShift):
+                return a >> b
         except TypeError as e:
             raise AnalysisError(f"circuit evaluation: {src(node)[:60]}: {e}")
         raise AnalysisError(f"circuit evaluation: operator in {src(node)[:60]}")
@@ -596,6 +621,19 @@ class Interp:
                  "sum": sum, "enumerate": lambda x, *a: list(enumerate(x, *a)), "zip": lambda *a: list(zip(*a)), "reversed": lambda x: list(reversed(x)),
                  "sorted": sorted, "str": str, "bool": bool, "all": all, "any": any, "set": set}[fname]
             return f(*args)
+        if fname in ("count", "itertools.count"):
+            # an unbounded counter is cut off after 65 values; a search that needs more exceeds the loop bound and is reported
+            args = [self.eval(a, env, m) for a in e.args]
+            start = args[0] if args else 0
+            step = args[1] if len(args) > 1 else 1
+            return [start + k * step for k in range(65)]
+        if fname == "next" and e.args:
+            seq = self.eval(e.args[0], env, m)
+            for x in seq:
+                return x
+            if len(e.args) > 1:
+                return self.eval(e.args[1], env, m)
+            raise EvalRaise("StopIteration", "")
         if fname == "isinstance":
             o = self.eval(e.args[0], env, m)
             t = self.eval(e.args[1], env, m)
@@ -736,6 +774,29 @@ class Interp:
             if r is not None:
                 return self.call_function(r[0].module, r[1], args, kwargs, self_obj=o)
         raise AnalysisError(f"circuit evaluation: method {name} of {o!r}")
+
+
+def object_from_init(repo, cls, overrides=None, kind="obj"):
+    """an object of `cls` whose attributes start as __init__ leaves them, as far as that is a constant or an empty container
+    (`self.x = None / 0 / [] / {} / set()`, annotated or not); `overrides` are set on top"""
+    o = Obj(cls, {}, kind)
+    for k in reversed(repo.mro(cls)):
+        init = k.methods.get("__init__")
+        if init is None:
+            continue
+        for t_, v_, _st in A.plain_assigns(init):
+            if not A.is_self_attr(t_):
+                continue
+            if isinstance(v_, ast.Constant):
+                o.fields[t_.attr] = v_.value
+            elif isinstance(v_, (ast.List, ast.Tuple)) and not v_.elts:
+                o.fields[t_.attr] = [] if isinstance(v_, ast.List) else ()
+            elif isinstance(v_, ast.Dict) and not v_.keys:
+                o.fields[t_.attr] = {}
+            elif isinstance(v_, ast.Call) and isinstance(v_.func, ast.Name) and v_.func.id in ("set", "dict", "list") and not v_.args and not v_.keywords:
+                o.fields[t_.attr] = {"set": set, "dict": dict, "list": list}[v_.func.id]()
+    o.fields.update(overrides or {})
+    return o
 
 
 # ---------------------------------------------------------------------------
